@@ -641,7 +641,7 @@ fn main()
     }
 
     // mutated renderings and token soup
-    let nmut = 900 * scale;
+    let nmut = 700 * scale;
     for _ in 0..nmut
     {
         let s: String = if rng.below(4) == 0
